@@ -335,3 +335,37 @@ def r4b(ck, F):
             ck.ok("C14.R4", key, fn=a.path)
         else:
             ck.bad("C14.R4", key, where(a.raw["sp"]), why + ": the merge path is taken for an empty store (parse error, fields lost) and skipped for a non-empty one (earlier fields overwritten)", fn=a.path)
+        # ... and on either side the values being recorded are visited: every Ok return has passed `fields.record(&mut v)`
+        key2 = "add_fields visits the recorded values on every successful path (empty store and merge alike)"
+        bad = 0
+        n = 0
+        for pth in PathEval(a).run():
+            if pth.end != "return" or not show(pth.ret).startswith("Result::Ok"):
+                continue
+            n += 1
+            if not any(c[1].get("method") == "record" and "Record" in (c[1].get("path") or "") for c in pth.calls):
+                bad += 1
+        if n and not bad:
+            ck.ok("C14.R4", key2, fn=a.path)
+        else:
+            ck.bad("C14.R4", key2, where(a.raw["sp"]), "%d of %d Ok paths return without visiting the new values: fields recorded after the span was created are lost" % (bad, n), fn=a.path)
+    r = F.impl_method("tracing_subscriber::subscribe::Subscribe", "tracing_subscriber::fmt::fmt_subscriber::Subscriber", "on_record")
+    if ck.anchor("C14.R4", "fmt Subscriber::on_record", r):
+        # a span created without fields has nothing stored: the first record must then *store* what it formatted
+        key3 = "fmt on_record stores the formatted values when the span had none stored"
+        ins = [bb for bb, t in r.calls() if t["callee"].get("method") == "insert" and "Extensions" in (t["callee"].get("path") or "")]
+        ff = [bb for bb, t in r.calls() if t["callee"].get("method") == "format_fields"]
+        ok = bool(ff) and bool(ins) and all(any(i in r.reachable(f) for i in ins) for f in ff)
+        if ok:
+            # on the path where formatting succeeded the insert is reached
+            for pth in PathEval(r).run():
+                if pth.end != "return" or not any(c[1].get("method") == "format_fields" for c in pth.calls):
+                    continue
+                okf = [c[1] for c in pth.conds if show(c[0]).startswith("is_ok(format_fields(")] + [0 if c[1] else 1 for c in pth.conds if show(c[0]).startswith("is_err(format_fields(")]
+                stored = any(c[1].get("method") == "insert" and "Extensions" in (c[1].get("path") or "") for c in pth.calls)
+                if (not okf or okf[-1] != 0) and not stored:
+                    ok = False
+        if ok:
+            ck.ok("C14.R4", key3, fn=r.path)
+        else:
+            ck.bad("C14.R4", key3, where(r.raw["sp"]), "values recorded on a span that was created without fields are formatted and then dropped: no later record of the span shows them", fn=r.path)
